@@ -118,7 +118,7 @@ DenRules(rs, input, id, i, st, acc) ==
   ELSE LET r == Den(rs.rules[i].expr, EnvOf(rs, input, id), st) IN
        DenRules(rs, input, id, i + 1, r.st, Append(acc, [rule |-> rs.rules[i].name, o |-> r.o]))
 \* st0 carries the functions' counters as they stand; the cache always starts empty
-DenRuleSet(rs, input, id, counts) == DenRules(rs, input, id, 1, [cache |-> <<>>, counts |-> counts, calls |-> <<>>], <<>>)
+DenRuleSet(rs, input, id, counts) == DenRules(rs, input, id, 1, [cache |-> <<>>, counts |-> counts, calls |-> <<>>, taint |-> FALSE], <<>>)
 \* a single rule on its own, with an empty cache (the isolation reference of C09)
-DenAlone(rs, input, id, i, counts) == Den(rs.rules[i].expr, EnvOf(rs, input, id), [cache |-> <<>>, counts |-> counts, calls |-> <<>>]).o
+DenAlone(rs, input, id, i, counts) == Den(rs.rules[i].expr, EnvOf(rs, input, id), [cache |-> <<>>, counts |-> counts, calls |-> <<>>, taint |-> FALSE]).o
 =============================================================================
